@@ -53,6 +53,8 @@ ProveEvent(e) ==
 \* scenarios whose verdict is determined by their class (DESIGN.md C18)
 VerifyEvent(e) ==
   /\ e.out.panic = ""
+  /\ e.out.inputs_intact /\ e.out.second_same                      \* inputs are only read; verifying again gives the same answer
+  /\ e.out.decode_ok => e.out.shared_hash = e.out.pth_beta          \* a reused Proof value hashes what it decoded last
   /\ e.in.expect = "accept" => e.out.ok /\ e.out.beta = e.facts.beta
   /\ e.in.expect = "reject" => ~e.out.ok /\ e.out.beta = <<>>
   /\ e.in.decodes = "no" => ~e.out.decode_ok /\ ~e.out.pth_ok
@@ -61,6 +63,7 @@ VerifyEvent(e) ==
 \* any 80-byte string: decode succeeds => re-encodes to itself; s must be canonical
 DecodeEvent(e) ==
   /\ e.out.panic = ""
+  /\ e.out.decode_ok => e.out.shared_hash = e.out.pth_beta
   /\ e.out.decode_ok => e.out.reencoded = e.in.pi
   /\ (Len(e.in.pi) # 80) => ~e.out.decode_ok
   /\ (Len(e.in.pi) = 80 /\ ~BNLt(LE(SubSeq(e.in.pi, 49, 80)), EdL)) => ~e.out.decode_ok
